@@ -117,10 +117,43 @@ def patterns_quick():
     return pats
 
 
+ESCAPED_SPELLINGS = [(r'[a-\z-9]', '[a-z-9]'), (r'[\a-\c-\e]', '[a-c-e]'), (r'[!a-\z-9]', '[!a-z-9]'), (r'x[0-\9-a]', 'x[0-9-a]'), (r'[a-\z]', '[a-z]'), (r'[\a-z]', '[a-z]'),
+                     (r'[a-\c-]', '[a-c-]'), (r'[a-\cx-\z-]', '[a-cx-z-]'), (r'[a-\z-9]*', '[a-z-9]*'), (r'[\!a]', '[a!]'), (r'[a\]b]', '[]ab]')]
+
+
+def escaped_spelling_lemmas(chk):
+    """An escaped member of a bracket expression denotes the character itself - also as the END of a range (a hyphen directly behind
+    the range is then literal, exactly as behind an unescaped end).  Each pair is decided exactly (all names)."""
+    from wcmatch import _wcparse as W, fnmatch as F
+    agg = dict(proved=0, refuted=0)
+    for esc, plain in ESCAPED_SPELLINGS:
+        for fl, nm in ((F.U, 'unix'), (F.U | F.D | F.E, 'unix|D|E'), (F.W | F.D, 'win|D')):
+            for is_bytes in (False, True):
+                p1, p2 = (esc.encode(), plain.encode()) if is_bytes else (esc, plain)
+                try:
+                    a = W.compile_pattern(p1, F._flag_transform(fl))[0][0]
+                    b = W.compile_pattern(p2, F._flag_transform(fl))[0][0]
+                    r = R.equal(R.Impl(a), R.Impl(b))
+                except (R.Unsupported, R.StateLimit) as e:
+                    chk.leave_open('C01.lang.escaped_bracket_members_and_range_ends', str(e))
+                    continue
+                chk.case(key=('escaped-spelling', esc, nm, is_bytes))
+                if r is None:
+                    agg['proved'] += 1
+                else:
+                    agg['refuted'] += 1
+                    w = R.to_str(r[0], is_bytes)
+                    chk.violation(dict(obligation='C01.lang.escaped_bracket_members_and_range_ends', pattern=esc, flags=fl, fl=nm, witness=w, mode='escaped-spelling', bytes=is_bytes),
+                                  f'C01.lang.escaped_bracket_members_and_range_ends: {esc!r} and {plain!r} differ on {w!r} under {nm}',
+                                  f"import sys; sys.path.insert(0, {REPO!r})\nfrom wcmatch import fnmatch\nprint(fnmatch.fnmatch({w!r}, {p1!r}, flags={fl}), fnmatch.fnmatch({w!r}, {p2!r}, flags={fl}))\nsys.exit(1)\n")
+    chk.obligation('C01:C01.lang.escaped_bracket_members_and_range_ends', 'refuted' if agg['refuted'] else 'proved', 'relang', 0.0, detail=f"{agg['proved']} proved, {agg['refuted']} refuted")
+
+
 def main(tier, seed):
     chk = Check('C01', tier, seed, level='other', technique='contracts + exact regular-language decision per pattern')
     known = chk.known
     finite_lemmas(chk)
+    escaped_spelling_lemmas(chk)
     from vlib import glue
     glue.run(chk, 'C01')
     items = []
